@@ -122,6 +122,8 @@ def C05(ctx):
     """The VM is total and stays within its bounds: Bounds is an invariant of every validated state;
     a panic is an event no specification action accepts."""
     ctx.mc("ops", "MC_VmOps.tla", "MC_VmOps.cfg", workers=8)
+    # every op sequence of <= 6 (thorough 8) ops under shrunk limits: bounds + totality of the specification
+    ctx.mc("free", "MC_VmFree.tla", "MC_VmFree_thorough.cfg" if ctx.thorough else "MC_VmFree.cfg", workers=8, timeout=3000)
     _vm_program_check(ctx, ["exh", "rand"], profiles=("dev", "release"))
 
 
